@@ -86,7 +86,7 @@ def gen_case(rng, tier):
     op = rng.choice(["fdiv", "cdiv", "tdiv", "gcdext", "gcdext", "gcdext", "gcd", "lcm", "invert", "invert", "powm", "powm", "powm",
                      "powui", "qpowui", "root", "root", "rootrem", "sqrt", "sqrtrem", "psq", "scan1", "fib", "fib2", "luc", "luc2",
                      "fac", "bin", "bin", "ppow", "ppow", "legendre", "jacobi", "jacobi", "kronecker", "kronecker", "nextprime",
-                     "isprime", "isprime", "divisible", "cmpabs", "and", "shr", "shl", "getui", "getsi", "fits", "hex", "hash", "setd",
+                     "isprime", "isprime", "divisible", "cmpabs", "and", "shr", "shl", "getui", "getsi", "fits", "hex", "hash", "setd", "getd",
                      "primorial", "nt", "nt", "nt"])
     if op in ("fdiv", "cdiv", "tdiv"):
         b = znz(rng)
@@ -149,6 +149,8 @@ def gen_case(rng, tier):
         return "legendre %d %d" % (a, p)
     if op == "jacobi":
         n = abs(rng.choice([zany(rng), rng.randint(0, 60), 1, 9, 15, 45, rng.choice(PSEUDO)])) | 1
+        if rng.random() < 0.04:
+            n = -n          # known finding: the Boost build rejects a negative denominator
         a = rng.choice([zany(rng), zany(rng), 0, 1, -1, 2, n, n - 1, n + 2, 3 * n, rng.randint(-50, 50)])
         return "jacobi %d %d" % (a, n)
     if op == "kronecker":
@@ -168,13 +170,14 @@ def gen_case(rng, tier):
         return "%s %d %d" % (op, a, b)
     if op in ("shr", "shl"):
         a = zany(rng)
-        if op == "shr":
-            a = abs(a)
         return "%s %d %d" % (op, a, rng.choice([0, 1, 2, 31, 32, 63, 64, 65, rng.randint(0, 130)]))
     if op in ("getui", "hex", "hash", "fits"):
         return "%s %d" % (op, rng.choice([zany(rng), 2 ** 63 - 1, 2 ** 63, -2 ** 63, -2 ** 63 - 1, 2 ** 64 - 1, 2 ** 64, 2 ** 64 + 5, -2 ** 64 - 5]))
     if op == "getsi":
-        return "getsi %d" % rng.choice([rng.randint(-2 ** 63, 2 ** 63 - 1), rng.randint(-100, 100), 2 ** 63 - 1, -2 ** 63])
+        return "getsi %d" % rng.choice([rng.randint(-2 ** 63, 2 ** 63 - 1), rng.randint(-100, 100), 2 ** 63 - 1, -2 ** 63, 2 ** 63, 2 ** 64 + rng.randint(0, 9)])
+    if op == "getd":
+        e = rng.choice([10, 52, 53, 54, 60, 64, 100, 200])
+        return "getd %d" % (rng.choice([1, -1]) * rng.choice([rng.getrandbits(53), 2 ** e, 2 ** e + 2 ** max(e - 52, 0), 2 ** e + 1, 2 ** e + 3, 2 ** e - 1, rng.getrandbits(e + 1)]))
     if op == "setd":
         import struct
         v = rng.choice([float(rng.randint(-10 ** 6, 10 ** 6)) / rng.choice([1, 2, 4, 3]), float(zany(rng, 200)), 0.5, -0.5, 1e300, 2.0 ** 64, -2.0 ** 63])
@@ -308,7 +311,7 @@ def workload(rng, n):
 CORPUS = [
     # the differences between the two backends seen while building this check (see known_findings.txt / fixes)
     "powm -2 3 -5", "powm -7 5 -13", "luc2 0", "nt lucas2 0", "kronecker 1 0", "kronecker -1 0", "kronecker 2 0", "kronecker 0 0",
-    "isprime -3", "isprime -2", "isprime -1", "isprime -7", "gcdext 0 0", "nt gcd_ext 0 0", "shr -5 1", "shr -8 2", "jacobi 5 -15", "jacobi 2 -7",
+    "isprime -3", "isprime -2", "isprime -1", "isprime -7", "gcdext 0 0", "nt gcd_ext 0 0", "shr -5 1", "shr -8 2", "jacobi 5 -15", "jacobi 2 -7", "getd 9007199254740995", "getd 9007199254740993",
     "getsi 18446744073709551621", "getsi 9223372036854775808", "getsi -9223372036854775809",
     # boundaries
     "fdiv -5 3", "fdiv 5 -3", "fdiv -6 3", "cdiv 5 3", "cdiv -5 3", "cdiv 6 -3", "tdiv -7 2",
@@ -361,6 +364,8 @@ def classify(case, rel, boost):
         return "C43/shift-right-negative"
     if op == "getsi" and not (-2 ** 63 <= args[0] < 2 ** 63):
         return "C43/get_si-out-of-range"
+    if op == "getd" and abs(args[0]) >= 2 ** 53:
+        return "C43/get_d-rounding"
     if failed(rel) != failed(boost):
         return "C43/%s-fails-on-one-backend" % op
     return "C43/%s-backend-difference" % op
@@ -463,8 +468,8 @@ def run(ctx):
         "plus an exhaustive comparison with the definition (Legendre symbols by listing squares) for odd n < 100",
         "inputs on which GMP raises its arithmetic exception (SIGFPE: division by zero, even root of a negative number, non-invertible base with a negative exponent) and "
         "the Boost build throws are counted as the same outcome; GMP documents them as undefined/raising",
-        "outside the property (numeric, not exact): mp_get_d truncates with GMP and rounds to nearest with Boost; mp_probab_prime_p returns 2 for small primes with GMP "
-        "and 1 with Boost (the library's own tests only require non-zero); the random streams of mp_randstate differ",
+        "mp_probab_prime_p returns 2 for small primes with GMP and 1 with Boost (the library's own tests only require non-zero): compared as zero / non-zero; "
+        "the random streams of mp_randstate differ (factor() is compared as found / not found)",
         "unsigned long arguments (root index, fib/fac/bin index, shift counts) fit 64 bits; boost::multiprecision::pow's exponent fits `unsigned` (numeric_cast throws otherwise)",
         "not covered: FLINT and Piranha backends (not installed), the gmpxx backend (same GMP functions through mpz_class)",
     ]
